@@ -117,11 +117,20 @@ pub fn coverage(p: &Pos, rep: &mut Report) -> bool {
 pub fn check_carried(p: &Pos, bb: &mut inkayaku_board::Bitboard, rep: &mut Report, what: &str) {
     let fen = p.to_fen();
     let reference: BTreeSet<String> = p.legal_moves().iter().map(|m| m.uci()).collect();
-    let r = guarded_mut(|| bb.generate_legal_moves().iter().map(|m| m.to_uci_string()).collect::<Vec<_>>());
+    let r = guarded_mut(|| {
+        let a = bb.generate_legal_moves().iter().map(|m| m.to_uci_string()).collect::<Vec<_>>();
+        // the same board object asked again: the answer is a function of the position, not of
+        // how often it has been asked
+        let b = bb.generate_legal_moves().iter().map(|m| m.to_uci_string()).collect::<Vec<_>>();
+        (a, b)
+    });
     rep.count(&format!("{}_positions", what.replace('-', "_")));
     match r {
         Err(pm) => rep.violation(&format!("{}-{}", what, panic_sig(&pm)), format!("generate_legal_moves panicked on the board carried to {}: {}", fen, pm), json!({"kind":"c01","fen":fen})),
-        Ok(v) => compare_sets(rep, what, &fen, p, &v, &reference),
+        Ok((a, b)) => {
+            compare_sets(rep, what, &fen, p, &a, &reference);
+            compare_sets(rep, &format!("{}-asked-again", what), &fen, p, &b, &reference);
+        }
     }
 }
 
@@ -135,14 +144,19 @@ pub fn check(p: &Pos, rep: &mut Report, rng: &mut StdRng, perft_every: u32, perf
     // (1) generate_legal_moves
     let r = guarded_mut(|| {
         let mut bb = load(p)?;
-        Ok::<_, String>(bb.generate_legal_moves().iter().map(|m| m.to_uci_string()).collect::<Vec<_>>())
+        let a = bb.generate_legal_moves().iter().map(|m| m.to_uci_string()).collect::<Vec<_>>();
+        // asked again on the same board object (after the make/unmake probes of the first query)
+        let b = bb.generate_legal_moves().iter().map(|m| m.to_uci_string()).collect::<Vec<_>>();
+        Ok::<_, String>((a, b))
     });
     match r {
         Err(pm) => rep.violation(&format!("legal-{}", panic_sig(&pm)), format!("generate_legal_moves panicked in {}: {}", fen, pm), replay.clone()),
         Ok(Err(e)) => rep.violation("load-failed", e, replay.clone()),
-        Ok(Ok(v)) => {
+        Ok(Ok((v, again))) => {
             rep.add("moves_compared", v.len() as u64);
             compare_sets(rep, "legal", &fen, p, &v, &reference);
+            rep.add("moves_compared_on_second_query", again.len() as u64);
+            compare_sets(rep, "legal-asked-again", &fen, p, &again, &reference);
         }
     }
     // (2) pseudo-legal generator + make / is_valid / unmake filter (what search and perft use)
@@ -157,12 +171,25 @@ pub fn check(p: &Pos, rep: &mut Report, rng: &mut StdRng, perft_every: u32, perf
                 out.push(m.to_uci_string());
             }
         }
-        Ok::<_, String>(out)
+        // second pass over the same board object, as perft and the search do at every revisit
+        let mut again = Vec::new();
+        for m in bb.generate_pseudo_legal_moves() {
+            bb.make(m);
+            let ok = bb.is_valid();
+            bb.unmake(m);
+            if ok {
+                again.push(m.to_uci_string());
+            }
+        }
+        Ok::<_, String>((out, again))
     });
     match r {
         Err(pm) => rep.violation(&format!("filter-{}", panic_sig(&pm)), format!("pseudo-legal filter panicked in {}: {}", fen, pm), replay.clone()),
         Ok(Err(e)) => rep.violation("load-failed", e, replay.clone()),
-        Ok(Ok(v)) => compare_sets(rep, "filter", &fen, p, &v, &reference),
+        Ok(Ok((v, again))) => {
+            compare_sets(rep, "filter", &fen, p, &v, &reference);
+            compare_sets(rep, "filter-second-pass", &fen, p, &again, &reference);
+        }
     }
     // (3) capture/promotion-only generator
     let r = guarded_mut(|| {
